@@ -10,9 +10,9 @@ LEVEL = "exploration"
 RULE = ("request sequences on 7E5h over the 21 LSS command specifiers plus unknown ones with matching / off-by-one / non-matching arguments "
         "(~75 abstract requests), NMT commands incl. reset communication, for identity values incl. 0 and FFFFFFFFh: breadth-first over the "
         "distinct states of the reference FSM to the depth bound (every request tried in every distinct reference state reached, each on "
-        "the real node by replaying a shortest prefix), plus random sequences of 40 requests; responses (0 or 1 frame on 7E4h, command "
-        "specifier, payload / error code), COLssStore arguments, absence of any other reaction, and boot-up identifier / node id after reset "
-        "communication are compared; non-trivial = sequence containing >= 1 answered request; distinct by request sequence")
+        "the real node by replaying a shortest prefix), plus random sequences of 40 requests, plus every single and double mutation (drop, duplicate, wrong value, wrong-valued copy, swap, foreign request) of the matching selective and identify sequences; responses (0 or 1 frame on 7E4h, command "
+        "specifier, payload / error code), COLssStore arguments, absence of any other reaction, boot-up identifier / node id after reset "
+        "communication and the identifiers the SDO server and NMT then obey are compared; non-trivial = sequence containing >= 1 answered request; distinct by request sequence")
 ASSUMPTIONS = ["a selective / identify sequence interrupted by a mismatching or foreign LSS frame: the answer to its last frame is not constrained",
                "switch-state-global with a mode other than 0/1, cs 76 (identify non-configured slave) and response DLC are not constrained",
                "activate-bit-timing is generated with non-zero delays only"]
@@ -182,6 +182,21 @@ def step(res, sim, m, rq, fail):
             st = sim.state()
             if int(st["nodeid"]) != m.nid or int(st["baud"]) != m.baud:
                 return fail("reset/active-config", "active node id %s / bit rate %s, reference %d / %d" % (st["nodeid"], st["baud"], m.nid, m.baud)), False
+            # the active node id is the one every service uses: the SDO server answers on 580h+id to requests on 600h+id, and to no other
+            rd = bytes([0x40, 0x00, 0x10, 0x00, 0, 0, 0, 0])
+            evs = sim.rx(0x600 + m.nid, rd)
+            got = [(cid, d[:4]) for (t, cid, dlc, d, f) in S.txs(evs)]
+            if got != [(0x580 + m.nid, bytes([0x43, 0x00, 0x10, 0x00]))]:
+                return fail("reset/sdo-id", "after reset communication with active node id %d an SDO read on %x is answered by %r (old node id %d)" % (
+                    m.nid, 0x600 + m.nid, [("%x" % c, d.hex()) for c, d in got], old_nid)), False
+            if old_nid != m.nid:
+                evs = sim.rx(0x600 + old_nid, rd)
+                if S.txs(evs):
+                    return fail("reset/sdo-id", "after the change of the node id from %d to %d the SDO server still answers on the old identifier" % (old_nid, m.nid)), False
+            evs = sim.rx(0, bytes([1, m.nid]))
+            if int(sim.ret("getmode")[0]) != 3:
+                return fail("reset/nmt-id", "NMT start addressed to the active node id %d is not obeyed" % m.nid), False
+            sim.rx(0, bytes([128, m.nid]))
         else:
             m.nmt = {1: 3, 2: 4, 128: 2}[cs]
         return True, False
@@ -269,6 +284,54 @@ def run_seq(res, sim, ident, nid, seq, tag, sample=False):
     return True, m
 
 
+def near_miss_sequences(ident, which):
+    """All single and double mutations (drop / duplicate / wrong value / wrong-valued copy in front / swap with successor / foreign
+    request in front) of the matching switch-state-selective (which = 'sel') or identify-remote-slave (which = 'id') sequence."""
+    def f(cs, arg):
+        return bytes([cs]) + (arg & 0xFFFFFFFF).to_bytes(4, "little") + bytes(3)
+    if which == "sel":
+        base = [(64 + k, ident[k]) for k in range(4)]
+        wrong = [(64 + k, ident[k] ^ 1) for k in range(4)]
+    else:
+        ref = [ident[0], ident[1], ident[2], ident[2], ident[3], ident[3]]
+        base = [(70 + k, ref[k]) for k in range(6)]
+        wrong = [(70, ref[0] ^ 1), (71, ref[1] ^ 1), (72, (ref[2] + 1) & 0xFFFFFFFF if ref[2] != 0xFFFFFFFF else ref[2]), (73, ref[3] - 1 if ref[3] else 0),
+                 (74, (ref[4] + 1) & 0xFFFFFFFF if ref[4] != 0xFFFFFFFF else ref[4]), (75, ref[5] - 1 if ref[5] else 0)]
+    n = len(base)
+    tagged = [("b", i) for i in range(n)]
+
+    def muts(seq):
+        out = []
+        for i in range(len(seq)):
+            out.append(seq[:i] + seq[i + 1:])                        # drop
+            out.append(seq[:i] + [seq[i]] + seq[i:])                 # duplicate
+            if seq[i][0] == "b":
+                out.append(seq[:i] + [("w", seq[i][1])] + seq[i + 1:])   # wrong value
+                out.append(seq[:i] + [("w", seq[i][1])] + seq[i:])       # wrong-valued copy in front
+            if i + 1 < len(seq):
+                out.append(seq[:i] + [seq[i + 1], seq[i]] + seq[i + 2:]) # swap
+            out.append(seq[:i] + [("f", 0)] + seq[i:])               # foreign LSS request in front
+        return out
+    seqs = {tuple(tagged)}
+    first = muts(tagged)
+    for a in first:
+        seqs.add(tuple(a))
+        for b in muts(a):
+            seqs.add(tuple(b))
+    out = []
+    for sq in sorted(seqs):
+        fr = []
+        for (t, i) in sq:
+            if t == "b":
+                fr.append(f(*base[i]))
+            elif t == "w":
+                fr.append(f(*wrong[i]))
+            else:
+                fr.append(bytes([94, 0, 0, 0, 0, 0, 0, 0]))
+        out.append(fr)
+    return out
+
+
 def make_cfg(ident, nid):
     cfg = Config(nodeid=nid, freq=1000, tmrnum=8)
     gen.add_mandatory(cfg, hb=0, ssdo=1, ssdo_rw=False, ident=tuple(ident))
@@ -283,6 +346,11 @@ def plan(tier, seed):
     q = tier == "quick"
     items = [("bfs", i, 4 if q else 5) for i in range(len(IDENTS))]
     items += [("rand", i, 30 if q else 300) for i in range(32 if q else 200)]
+    # near misses of the two multi-frame sequences (complete: all single and double mutations)
+    for i in range(2 if q else len(IDENTS)):
+        for which in ("sel", "id"):
+            for part in range(8):
+                items.append(("nearmiss", i, which, part))
     return items
 
 
@@ -330,6 +398,21 @@ def work(item, ctx):
                 frontier = nxt
                 res.counters["bfs_states"] = len(seen)
             res.states = set((item[1], k) for k in seen)
+        elif item[0] == "nearmiss":
+            ident = IDENTS[item[1]]
+            nid = [1, 5, 127, 64][item[1]]
+            seqs = near_miss_sequences(ident, item[2])[item[3]::8]
+            sim = S.Sim(exe, make_cfg(ident, nid))
+            try:
+                for k, seq in enumerate(seqs):
+                    # once from LSS waiting state, once from a state left by an earlier, unrelated partial sequence
+                    pre = [] if k % 3 else [bytes([70]) + ident[0].to_bytes(4, "little") + bytes(3), bytes([64]) + ident[0].to_bytes(4, "little") + bytes(3)]
+                    ok, m = run_seq(res, sim, ident, nid, pre + seq + [bytes([94, 0, 0, 0, 0, 0, 0, 0])], ("nearmiss", item[1], item[2]))
+                    if not ok:
+                        return res
+                    res.counters["near_miss_sequences"] += 1
+            finally:
+                sim.close()
         else:
             for h in range(item[2]):
                 rng = random.Random(F.seed_for(ctx["seed"], "C18", item[1], h))
